@@ -19,6 +19,7 @@ import (
 	"encoding/hex"
 	"encoding/json"
 	"fmt"
+	"io"
 	"math/big"
 	"os"
 	"path/filepath"
@@ -1107,6 +1108,232 @@ func (x *H) fixedGrp(v *types.Group, origin string, src []byte) {
 	}
 }
 
+// ---------------------------------------------------------------- wire layer (proto.Unmarshal / proto.Marshal) vs model
+
+var kindNames = []string{"Transaction", "TransactionSlice", "BlockHeader", "Block", "Group"}
+
+func wireErrCode(err error) int {
+	if err == nil {
+		return 0
+	}
+	if err == io.ErrUnexpectedEOF {
+		return 1
+	}
+	if _, ok := err.(*proto.RequiredNotSetError); ok {
+		return 3
+	}
+	if strings.Contains(err.Error(), "can't skip unknown wire type") {
+		return 2
+	}
+	if strings.Contains(err.Error(), "illegal tag 0") {
+		return 4
+	}
+	return 8
+}
+
+func cPbTxs(l []*pb.Transaction) string {
+	ts := []string{}
+	for _, t := range l {
+		ts = append(ts, cPbTx(t))
+	}
+	return hx.CoqList(ts)
+}
+
+func cPbBlock(p *pb.Block) string {
+	hd := "None"
+	if p.Header != nil {
+		hd = "(Some " + cPbHdr(p.Header) + ")"
+	}
+	return "(mk_pb_block " + hd + " " + cPbTxs(p.Transactions) + ")"
+}
+
+// proto.Unmarshal of b into the pb type of [kind]; returns the Coq observation term, the error code and the message
+func wireObserve(kind int, b []byte) (string, int, proto.Message) {
+	var m proto.Message
+	switch kind {
+	case 0:
+		m = new(pb.Transaction)
+	case 1:
+		m = new(pb.TransactionSlice)
+	case 2:
+		m = new(pb.BlockHeader)
+	case 3:
+		m = new(pb.Block)
+	case 4:
+		m = new(pb.Group)
+	}
+	code := wireErrCode(proto.Unmarshal(b, m))
+	if code != 0 {
+		return fmt.Sprintf("(WE %d%%N %d%%N)", kind, code), code, m
+	}
+	switch v := m.(type) {
+	case *pb.Transaction:
+		return "(WTx " + cPbTx(v) + ")", 0, m
+	case *pb.TransactionSlice:
+		return "(WTxs " + cPbTxs(v.Transactions) + ")", 0, m
+	case *pb.BlockHeader:
+		return "(WHdr " + cPbHdr(v) + ")", 0, m
+	case *pb.Block:
+		return "(WBlk " + cPbBlock(v) + ")", 0, m
+	case *pb.Group:
+		return "(WGrp " + cPbGroup(v) + ")", 0, m
+	}
+	return "", 8, m
+}
+
+var wireClass = []string{"ok", "unexpected-EOF", "unknown-wire-type", "required-not-set", "illegal-tag-0", "", "", "", "other-error"}
+
+// one byte string through the real wire decoder and into a model case; e2e also through types.UnMarshalX
+func (x *H) wireCase(kind int, b []byte, origin string, e2e bool) {
+	if len(b) > 1400 {
+		return
+	}
+	term, code, m := wireObserve(kind, b)
+	id := fmt.Sprintf("w%d:%s", kind, hexs(b))
+	x.res.Count("pbwire:"+kindNames[kind]+":"+wireClass[code], id, true)
+	if code == 8 {
+		x.res.Note("unclassified decoder error on " + hexs(b))
+	}
+	x.cs.Add("CWire "+hx.CoqHex(b)+" "+term, map[string]interface{}{"kind": "proto.Unmarshal " + kindNames[kind], "origin": origin, "bytes": hexs(b), "class": wireClass[code]})
+	if !e2e || kind == 1 {
+		return
+	}
+	tbl := [][2][]byte{}
+	addTx := func(t *pb.Transaction) {
+		if t != nil && t.SubTransactions != nil {
+			tbl = append(tbl, [2][]byte{t.SubTransactions, subOracle(t.SubTransactions)})
+		}
+	}
+	addHdr := func(h *pb.BlockHeader) {
+		if h != nil && h.RequestIds != nil {
+			tbl = append(tbl, [2][]byte{h.RequestIds, reqOracle(h.RequestIds)})
+		}
+	}
+	o := fmt.Sprintf("(UE %d%%N)", kind)
+	var pan bool
+	switch v := m.(type) {
+	case *pb.Transaction:
+		addTx(v)
+		var t types.Transaction
+		var err error
+		pan, _ = guard(func() { t, err = types.UnMarshalTransaction(b) })
+		if !pan && err == nil {
+			o = "(UTx " + cTx(&t) + ")"
+		}
+	case *pb.BlockHeader:
+		addHdr(v)
+		var h *types.BlockHeader
+		var err error
+		pan, _ = guard(func() { h, err = types.UnMarshalBlockHeader(b) })
+		if !pan && err == nil {
+			if h == nil {
+				o = "UNilHdr"
+			} else {
+				o = "(UHdr " + cHdr(h) + ")"
+			}
+		}
+	case *pb.Block:
+		addHdr(v.Header)
+		for _, t := range v.Transactions {
+			addTx(t)
+			if v.Header != nil && t.SubTransactions != nil && bytes.Equal(t.SubTransactions, v.Header.RequestIds) {
+				return
+			}
+		}
+		var bl *types.Block
+		var err error
+		pan, _ = guard(func() { bl, err = types.UnMarshalBlock(b) })
+		if !pan && err == nil {
+			l := []string{}
+			for _, t := range bl.Transactions {
+				l = append(l, cTx(t))
+			}
+			o = "(UBlk (mk_block bytes bytes " + cOHdr(bl.Header) + " (Some " + hx.CoqList(l) + ")))"
+		}
+	case *pb.Group:
+		var g *types.Group
+		var err error
+		pan, _ = guard(func() { g, err = types.UnMarshalGroup(b) })
+		if !pan && err == nil {
+			o = "(UGrp " + cGroup(g) + ")"
+		}
+	}
+	if pan {
+		return // reported by the totality search
+	}
+	x.cs.Add("CUn "+cTbl(tbl)+" "+hx.CoqHex(b)+" "+o, map[string]interface{}{"kind": "types.UnMarshal" + kindNames[kind], "origin": origin, "bytes": hexs(b)})
+}
+
+// proto.Marshal of a pb struct vs the model encoder
+func (x *H) encCase(m proto.Message) []byte {
+	b, err := proto.Marshal(m)
+	o := "None"
+	if err == nil {
+		o = "(Some " + hx.CoqHex(b) + ")"
+	} else if _, ok := err.(*proto.RequiredNotSetError); !ok {
+		return nil
+	}
+	var term string
+	switch v := m.(type) {
+	case *pb.Transaction:
+		term = "(WTx " + cPbTx(v) + ")"
+	case *pb.TransactionSlice:
+		term = "(WTxs " + cPbTxs(v.Transactions) + ")"
+	case *pb.BlockHeader:
+		if !noNilElems(v) {
+			return nil
+		}
+		term = "(WHdr " + cPbHdr(v) + ")"
+	case *pb.Block:
+		if v.Header != nil && !noNilElems(v.Header) {
+			return nil
+		}
+		term = "(WBlk " + cPbBlock(v) + ")"
+	case *pb.Group:
+		term = "(WGrp " + cPbGroup(v) + ")"
+	}
+	x.res.Count("pbwire:marshal", "e"+term, true)
+	x.cs.Add("CEnc "+term+" "+o, map[string]interface{}{"kind": "proto.Marshal", "pb": m.String()})
+	if err != nil {
+		return nil
+	}
+	return b
+}
+
+func vi(x uint64) []byte { return proto.EncodeVarint(x) }
+func cat(bs ...[]byte) []byte {
+	var r []byte
+	for _, b := range bs {
+		r = append(r, b...)
+	}
+	return r
+}
+func ld(num uint64, payload []byte) []byte { return cat(vi(num<<3|2), vi(uint64(len(payload))), payload) }
+
+// hand-built hostile inputs: varints at and beyond the limits, lengths beyond the input, groups, wrong and
+// unknown wire types, repeated scalars, merged messages, missing required fields at depth
+func hostileWire() [][]byte {
+	ten := []byte{0xff, 0xff, 0xff, 0xff, 0xff, 0xff, 0xff, 0xff, 0xff}
+	utc := []byte{1, 0, 0, 0, 0, 0, 0, 0, 0, 0, 0, 0, 0, 0xff, 0xff}
+	hd := cat(ld(4, utc), ld(7, utc))
+	l := [][]byte{
+		{0x10}, {0x10, 0x80}, cat([]byte{0x10}, ten, []byte{0x01}), cat([]byte{0x10}, ten, []byte{0x02}), cat([]byte{0x10}, ten, []byte{0x7f}),
+		cat([]byte{0x10}, ten, []byte{0x81, 0x00}), {0x10, 0x80, 0x80, 0x80, 0x80, 0x80, 0x80, 0x80, 0x80, 0x80, 0x00}, {0x10, 0x81, 0x00}, {0x10, 0x80, 0x00, 0x28, 0x01},
+		{0x28, 0xff, 0xff, 0xff, 0xff, 0x0f}, {0x28, 0xff, 0xff, 0xff, 0xff, 0xff, 0xff, 0xff, 0xff, 0xff, 0x01}, {0x28, 0x80, 0x80, 0x80, 0x80, 0x08}, {0x28, 0x80, 0x80, 0x80, 0x80, 0x10},
+		cat([]byte{0x28, 0x01, 0x0a}, ten, []byte{0x01}), cat([]byte{0x28, 0x01, 0x0a}, []byte{0x80, 0x80, 0x80, 0x80, 0x80, 0x80, 0x80, 0x80, 0x80, 0x01}), {0x28, 0x01, 0x0a, 0x05, 1, 2}, {0x28, 0x01, 0x0a, 0x00}, {0x28, 0x01, 0x0a},
+		{0x28, 0x01, 0x0b, 0x0c}, {0x28, 0x01, 0x0b, 0x08, 0x01, 0x0c}, {0x28, 0x01, 0x0b, 0x0b, 0x0c, 0x12, 0x01, 0x00, 0x0c}, {0x28, 0x01, 0x0b, 0x0b, 0x0c}, {0x28, 0x01, 0x0b}, {0x28, 0x01, 0x0b, 0x0e, 0x0c}, {0x28, 0x01, 0x0b, 0x0d, 1, 2, 3, 4, 0x09, 1, 2, 3, 4, 5, 6, 7, 8, 0x0c},
+		{0x28, 0x01, 0x0c}, {0x28, 0x01, 0x0e}, {0x28, 0x01, 0x0f, 0x00}, {0x28, 0x01, 0x0d, 1, 2, 3}, {0x28, 0x01, 0x0d, 1, 2, 3, 4}, {0x28, 0x01, 0x09, 1, 2, 3, 4, 5, 6, 7}, {0x28, 0x01, 0x09, 1, 2, 3, 4, 5, 6, 7, 8},
+		{0x28, 0x01, 0x08, 0x05}, {0x28, 0x01, 0x12, 0x01, 0x41}, {0x28, 0x01, 0x15, 1, 2, 3, 4}, {0x2a, 0x01, 0x01, 0x28, 0x02}, {0x2d, 1, 2, 3, 4}, {0x28, 0x01, 0x28, 0x02, 0x10, 0x03, 0x10, 0x04, 0x0a, 0x01, 0x61, 0x0a, 0x01, 0x62},
+		{0x00, 0x01, 0x28, 0x01}, {0x02, 0x00, 0x28, 0x01}, {0xf8, 0xff, 0xff, 0xff, 0xff, 0xff, 0xff, 0xff, 0xff, 0x01, 0x05, 0x28, 0x01}, {0x80, 0x01, 0x05, 0x28, 0x01}, {0x28, 0x01, 0x7a, 0x00, 0x7a, 0x01, 0x78},
+		// blocks / headers / groups
+		ld(1, hd), cat(ld(1, hd), ld(1, cat(vi(2<<3), vi(7)))), cat(ld(1, cat(hd, ld(19, ld(1, []byte{1})))), ld(1, ld(19, ld(1, []byte{2, 3})))), cat(ld(1, hd), ld(2, []byte{0x28, 0x01}), ld(2, []byte{0x28, 0x02, 0x10})),
+		cat(ld(1, hd), ld(2, []byte{0x10, 0x01})), ld(2, []byte{0x28, 0x01}), cat(ld(1, hd), []byte{0x12, 0x05, 0x28}), cat([]byte{0x08, 0x01}, ld(1, hd)), cat([]byte{0x0d, 1, 2, 3, 4}, ld(1, hd)),
+		ld(1, cat(ld(6, []byte{9}), vi(7<<3), vi(5))), ld(1, ld(6, []byte{9})), ld(1, vi(7<<3|0)), cat(ld(1, cat(ld(6, []byte{9}), vi(7<<3), vi(5))), ld(5, []byte{1}), ld(5, []byte{}), ld(5, []byte{2, 3}), vi(6<<3), vi(1), vi(6<<3), vi(2)),
+		cat(ld(1, ld(6, []byte{9})), ld(1, cat(vi(7<<3), vi(5)))), ld(12, ld(1, []byte{7})), cat(ld(12, []byte{}), ld(12, ld(2, []byte{}))), ld(19, []byte{}), ld(19, cat(ld(1, []byte{}), ld(1, []byte{1}))), ld(18, []byte{1, 2}), cat(vi(18<<3), vi(1)),
+	}
+	return l
+}
+
 // ---- round trips of values
 
 func (x *H) rtTx(v *types.Transaction, model bool) []byte {
@@ -1556,6 +1783,105 @@ func main() {
 			x.wire("UnMarshalTransaction", b, "field-subset")
 		}
 		res.Exhaustive = false
+	}
+
+
+	// ---- 9. wire layer: proto.Unmarshal / proto.Marshal and the full UnMarshalX path against the wire model
+	if ext != nil {
+		if sch, err := c09ext.CoqSchema(ext); err != nil {
+			res.Violate("C09/gen:schema", "a field of the covered messages is outside the modelled kinds: "+err.Error(), root)
+		} else {
+			cs.Add("CSchema "+sch, map[string]interface{}{"kind": "message field tables re-extracted from x.pb.go", "hint": "differs from coq/C09/Gen.v: regenerate with tools/goextract-c09"})
+		}
+	}
+	for _, b := range hostileWire() {
+		for k := 0; k < 5; k++ {
+			x.wireCase(k, b, "hostile", true)
+		}
+	}
+	// compact valid messages: encoder correspondence, then every prefix and mutations at every byte position
+	u1, u7 := uint64(1), uint64(300)
+	tiny := []proto.Message{
+		&pb.Transaction{Type: proto.Int32(-2), Nonce: &u7, Data: proto.String("d"), Source: []byte{}, Hash: []byte{1, 2}, ChainId: proto.String("")},
+		&pb.TransactionSlice{Transactions: []*pb.Transaction{{Type: proto.Int32(1)}, {Type: proto.Int32(200), Target: proto.String("t")}}},
+		&pb.BlockHeader{Height: &u1, PreTime: []byte{1, 0, 0, 0, 0, 0, 0, 0, 0, 0, 0, 0, 0, 0xff, 0xff}, CurTime: []byte{1, 0, 0, 0, 14, 0, 0, 0, 5, 0, 0, 0, 9, 1, 0xe0}, ProveValue: []byte{},
+			Transactions: []*pb.TransactionHash{{Hash: []byte{3}}}, EvictedTxs: &pb.Hashes{Hashes: [][]byte{{4}, {}}}, RequestIds: []byte("{}"), TotalQN: &u7},
+		&pb.Block{Header: &pb.BlockHeader{Nonce: &u1, PreTime: []byte{1, 0, 0, 0, 0, 0, 0, 0, 0, 0, 0, 0, 0, 0xff, 0xff}, CurTime: []byte{1, 0, 0, 0, 0, 0, 0, 0, 0, 0, 0, 0, 0, 0xff, 0xff}, EvictedTxs: &pb.Hashes{}},
+			Transactions: []*pb.Transaction{{Type: proto.Int32(7), SubTransactions: []byte("[]")}}},
+		&pb.Group{Header: &pb.GroupHeader{MemberRoot: []byte{9}, CreateHeight: &u7, Extends: proto.String("x"), BeginTime: []byte{1, 0, 0, 0, 0, 0, 0, 0, 0, 0, 0, 0, 0, 0xff, 0xff}}, Id: []byte{1}, Members: [][]byte{{1}, {}, {2, 3}}, GroupHeight: &u1},
+	}
+	reps := 2
+	if thorough {
+		reps = 12
+	}
+	for k, m := range tiny {
+		b := x.encCase(m)
+		if b == nil {
+			res.Violate("C09/harness:tiny", "a hand-built message does not marshal", m.String())
+			continue
+		}
+		x.wireCase(k, b, "valid", true)
+		for i := 0; i < len(b); i++ {
+			x.wireCase(k, b[:i], "prefix", i%3 == 0)
+			for r := 0; r < reps; r++ {
+				c := append([]byte{}, b...)
+				switch r % 4 {
+				case 0:
+					c[i] ^= 1 << uint(g.r.Intn(8))
+				case 1:
+					c[i] = byte(g.r.U64())
+				case 2:
+					c[i] ^= 0x80
+				case 3:
+					c[i] = []byte{0, 0x7f, 0x80, 0xff, 0x0b, 0x0c}[g.r.Intn(6)]
+				}
+				x.wireCase(k, c, "byte-mutation", r == 0)
+			}
+		}
+	}
+	// generated pb structs: encoder correspondence; their encodings (full size) through the decoder
+	for i := 0; i < n/10; i++ {
+		var m proto.Message
+		k := i % 5
+		switch k {
+		case 0:
+			m = g.pbTx(8 | g.r.Intn(512)&^8)
+			m.(*pb.Transaction).Type = proto.Int32(g.i32())
+			if g.r.Intn(6) == 0 {
+				m.(*pb.Transaction).Type = nil
+			}
+		case 1:
+			m = &pb.TransactionSlice{Transactions: []*pb.Transaction{g.pbTx(0), g.pbTx(g.r.Intn(512) &^ 8)}}
+		case 2:
+			m = g.pbHdr(g.r.Intn(16), true)
+		case 3:
+			bl := &pb.Block{Transactions: []*pb.Transaction{g.pbTx(0)}}
+			if g.r.Intn(6) > 0 {
+				bl.Header = g.pbHdr(g.r.Intn(16), true)
+			}
+			m = bl
+		case 4:
+			m = g.pbGroup(g.r.Intn(16))
+			if gh := m.(*pb.Group).Header; gh != nil && gh.MemberRoot == nil && g.r.Bool() {
+				gh.MemberRoot = []byte{}
+			}
+		}
+		if b := x.encCase(m); b != nil {
+			x.wireCase(k, b, "valid", i%2 == 0)
+			if i%2 == 0 {
+				x.wireCase(k, mutate(g.r, b), "mutated", true)
+			}
+		}
+	}
+	// random bytes, short (so that many parse) and biased towards plausible tags
+	for i := 0; i < n/3; i++ {
+		b := g.r.Bytes(g.r.Intn(14))
+		for j := range b {
+			if g.r.Intn(3) == 0 {
+				b[j] = []byte{0x08, 0x0a, 0x10, 0x12, 0x28, 0x2a, 0x32, 0x01, 0x00, 0x02, 0x0b, 0x0c, 0x9a, 0x62}[g.r.Intn(14)]
+			}
+		}
+		x.wireCase(i%5, b, "random", i%2 == 0)
 	}
 
 	for _, s := range []string{"pb transaction with only Type set: wire 2801", "header subsets: Height/Nonce/TotalQN/EvictedTxs absent x valid and hostile time bytes",
